@@ -41,7 +41,12 @@ DevNames == { "FilePathNoCheck",    \* serve_as_file_path joins the URI under th
               "GuardPrefixOnly",    \* plausible bug: starts_with("..") instead of contains("..")
               "PreferIndexHtm",     \* plausible bug: index.htm is tried before index.html
               "StripByBytes",       \* plausible bug: directory_handler counts route characters but removes bytes
-              "NoRedirect" }        \* plausible bug: a directory without trailing slash is answered with its index
+              "NoRedirect",         \* plausible bug: a directory without trailing slash is answered with its index
+              "HexLowerOnly",       \* plausible bug: only lower-case hex digits are accepted in an escape
+              "StripAllPrefix",     \* plausible bug: serve_dir removes the route prefix as often as it occurs (trim_start_matches)
+              "ExtFirstDot",        \* plausible bug: the extension is what follows the FIRST dot of the name
+              "TrimNames",          \* plausible bug: the decoded path is trim()med (Unicode white space at both ends)
+              "JoinAbsolute" }      \* plausible bug: serve_as_file_path joins with Path::join, an absolute uri path replaces the directory
 ASSUME Dev \subseteq DevNames
 
 (***************************************************************************)
@@ -85,6 +90,9 @@ DecFrom(u, i) ==
   ELSE <<16 * Hex(u[i + 1]) + Hex(u[i + 2])>> \o DecFrom(u, i + 3)
 Has(s, b) == \E i \in 1..Len(s) : s[i] = b
 PercentDecode(u) == IF Has(u, PCT) THEN DecFrom(u, 1) ELSE u
+\* (deviation HexLowerOnly: an escape with an upper-case hex digit is malformed)
+UpperHexEscape(u) == \E i \in 1..(Len(u) - 2) : u[i] = PCT /\ \E j \in {i + 1, i + 2} : u[j] >= 65 /\ u[j] <= 70
+PercentDecodeD(dv, u) == IF "HexLowerOnly" \in dv /\ UpperHexEscape(u) THEN <<BAD>> ELSE PercentDecode(u)
 HexDigitU(n) == IF n < 10 THEN 48 + n ELSE 55 + n
 HexDigitL(n) == IF n < 10 THEN 48 + n ELSE 87 + n
 EncAllU(s) == Concat([i \in 1..Len(s) |-> <<PCT, HexDigitU(s[i] \div 16), HexDigitU(s[i] % 16)>>])
@@ -146,7 +154,8 @@ MkWorld(root, nodes) ==
 NodeAt(w, p) == IF p \in DOMAIN w.at THEN w.at[p] ELSE NoNode
 Parent(p) == IF p = <<>> THEN <<>> ELSE SubSeq(p, 1, Len(p) - 1)        \* the parent of the top is the top
 \* A path string as the kernel receives it: its components, or the fact that it contains a NUL byte
-PathArg(s) == [nul |-> Has(s, NUL), comps |-> Split(s)]
+\* (abs: looked up from the top instead of the served directory - only the deviation JoinAbsolute sets it)
+PathArg(s) == [nul |-> Has(s, NUL), comps |-> Split(s), abs |-> FALSE]
 \* what the kernel does with the components of a relative path, starting at directory node `cur`.
 \* Every component - also an empty one (repeated or trailing slash) and `.` - requires the node
 \* reached so far to be a directory.
@@ -159,7 +168,7 @@ Walk(w, cur, comps, i) ==
        ELSE IF c = DOTDOT THEN Walk(w, NodeAt(w, Parent(cur.p)), comps, i + 1)
        ELSE Walk(w, NodeAt(w, Append(cur.p, c)), comps, i + 1)
 \* metadata()/File::open() of  <directory> "/" rel   (no symbolic links in a world)
-OsLookupA(w, pa) == IF pa.nul THEN NoNode ELSE Walk(w, NodeAt(w, w.root), pa.comps, 1)
+OsLookupA(w, pa) == IF pa.nul THEN NoNode ELSE Walk(w, NodeAt(w, IF pa.abs THEN <<>> ELSE w.root), pa.comps, 1)
 OsLookup(w, rel) == OsLookupA(w, PathArg(rel))
 
 InsideNode(w, n) == n.k # "x" /\ IsPrefix(w.root, n.p)                  \* the root itself or below it
@@ -182,6 +191,20 @@ InsideLex(w, rel) == IsPrefix(w.root, Resolve(w, rel))
 LastDot(n) == IF Has(n, DOT) THEN CHOOSE i \in 1..Len(n) : n[i] = DOT /\ \A j \in (i + 1)..Len(n) : n[j] # DOT ELSE 0
 Ext(n) == LET k == LastDot(n) IN
           IF k <= 1 \/ n = DOTDOT THEN [has |-> FALSE, e |-> <<>>] ELSE [has |-> TRUE, e |-> SubSeq(n, k + 1, Len(n))]
+
+\* (deviation ExtFirstDot)
+FirstDot(n) == IF Has(n, DOT) THEN CHOOSE i \in 1..Len(n) : n[i] = DOT /\ \A j \in 1..(i - 1) : n[j] # DOT ELSE 0
+ExtD(dv, n) == IF "ExtFirstDot" \in dv
+               THEN (LET k == FirstDot(n) IN IF k = 0 THEN [has |-> FALSE, e |-> <<>>] ELSE [has |-> TRUE, e |-> SubSeq(n, k + 1, Len(n))])
+               ELSE Ext(n)
+\* Unicode White_Space characters (UTF-8), for the deviation TrimNames
+WhiteSpace == { <<9>>, <<10>>, <<11>>, <<12>>, <<13>>, <<32>>, <<194, 133>>, <<194, 160>>, <<225, 154, 128>>, <<226, 128, 168>>, <<226, 128, 169>>,
+                <<226, 128, 175>>, <<226, 129, 159>>, <<227, 128, 128>> } \cup {<<226, 128, k>> : k \in 128..138}
+IsSuffix(t, s) == Len(t) <= Len(s) /\ \A i \in 1..Len(t) : s[Len(s) - Len(t) + i] = t[i]
+RECURSIVE TrimWs(_)
+TrimWs(s) == IF \E t \in WhiteSpace : IsPrefix(t, s) THEN TrimWs(Drop(s, Len(CHOOSE t \in WhiteSpace : IsPrefix(t, s))))
+             ELSE IF \E t \in WhiteSpace : IsSuffix(t, s) THEN TrimWs(SubSeq(s, 1, Len(s) - Len(CHOOSE t \in WhiteSpace : IsSuffix(t, s))))
+             ELSE s
 
 \* ---- MIME types by extension (IANA media types; anything else is application/octet-stream)
 OCTET == "application/octet-stream"
@@ -218,10 +241,11 @@ IndexFilesD(dv) == IF "PreferIndexHtm" \in dv THEN <<INDEX_HTM, INDEX_HTML>> ELS
 \* route.rs try_find_path, first half.  t = "none": return None before any file-system call;
 \* "index": the path is empty or ends in `/` - a1, a2 are <dir>/<path><index file>; "plain": a1 = <dir>/<path>
 \* (a2 is only used by the deviation NoRedirect)
-NoArg == [nul |-> TRUE, comps |-> <<>>]
+NoArg == [nul |-> TRUE, comps |-> <<>>, abs |-> FALSE]
 FindPrep(t, a1, a2) == [t |-> t, a1 |-> a1, a2 |-> a2]
 TryFindPrepD(dv, reqPath) ==
-  LET d == PercentDecode(reqPath) IN
+  LET d0 == PercentDecodeD(dv, reqPath)
+      d == IF "TrimNames" \in dv /\ Utf8Ok(d0) THEN TrimWs(d0) ELSE d0 IN
   IF ~Utf8Ok(d) THEN FindPrep("none", NoArg, NoArg)                       \* percent_decode()? / from_utf8().ok()?
   ELSE IF (IF "GuardBeforeDecode" \in dv THEN Guard(reqPath)
            ELSE IF "GuardPrefixOnly" \in dv THEN IsPrefix(DOTDOT, TrimLeadSlashes(d)) \/ Has(d, COLON)
@@ -255,7 +279,8 @@ TryFindPathD(dv, w, reqPath) == TryFindOnD(dv, w, TryFindPrepD(dv, reqPath))
 \* a located file is read and labelled by the extension of its (canonical) name;
 \* noExt = what the caller does for a name without extension: the library sends no Content-Type,
 \* the server application/octet-stream
-FileAnswer(w, n, noExt) == LET e == Ext(Last(n.p)) IN Answer(200, n.id, IF e.has THEN Mime(e.e) ELSE noExt, <<>>, w)
+FileAnswerD(dv, w, n, noExt) == LET e == ExtD(dv, Last(n.p)) IN Answer(200, n.id, IF e.has THEN Mime(e.e) ELSE noExt, <<>>, w)
+FileAnswer(w, n, noExt) == FileAnswerD(Dev, w, n, noExt)
 Respond(w, l, uri, noExt) ==
   IF l.t = "dir" THEN Answer(301, 0, "", uri \o <<SLASH>>, w)
   ELSE IF l.t = "file" THEN FileAnswer(w, l.node, noExt)
@@ -265,6 +290,12 @@ Respond(w, l, uri, noExt) ==
 ServeDirStrip(route, uri) ==
   LET pre == IF route # <<>> /\ Last(route) = STAR THEN SubSeq(route, 1, Len(route) - 1) ELSE route IN
   IF IsPrefix(pre, uri) THEN Drop(uri, Len(pre)) ELSE uri
+RECURSIVE StripAll(_, _)
+StripAll(pre, uri) == IF pre # <<>> /\ IsPrefix(pre, uri) THEN StripAll(pre, Drop(uri, Len(pre))) ELSE uri
+ServeDirStripD(dv, route, uri) ==
+  IF "StripAllPrefix" \in dv
+  THEN StripAll(IF route # <<>> /\ Last(route) = STAR THEN SubSeq(route, 1, Len(route) - 1) ELSE route, uri)
+  ELSE ServeDirStrip(route, uri)
 
 \* static.rs directory_handler: one character of the uri is removed per character of `matches` before its first `*`
 CharsBeforeStar(m) == LET S == {i \in 1..Len(m) : m[i] = STAR}
@@ -279,6 +310,7 @@ DirHandlerStripD(dv, matches, uri) ==
 FilePathPrepD(dv, uri) ==
   LET fp == IF uri # <<>> /\ uri[1] = SLASH THEN Tail(uri) ELSE uri IN
   IF "FilePathNoCheck" \notin dv /\ Guard(fp) THEN FindPrep("none", NoArg, NoArg)
+  ELSE IF "JoinAbsolute" \in dv /\ fp # <<>> /\ fp[1] = SLASH THEN FindPrep("plain", [PathArg(fp) EXCEPT !.abs = TRUE], NoArg)
   ELSE FindPrep("plain", PathArg(fp), NoArg)
 
 \* handlers.rs serve_file: a configured path (here: relative to the root), whatever the request
@@ -286,7 +318,7 @@ ServeFileD(dv, w, cfgRel) == LET n == OsLookup(w, cfgRel) IN IF n.k = "f" THEN F
 
 HandlerNames == {"serve_dir", "directory", "file_path"}
 HandlePrepD(dv, h, route, uri) ==
-  IF h = "serve_dir" THEN TryFindPrepD(dv, ServeDirStrip(route, uri))
+  IF h = "serve_dir" THEN TryFindPrepD(dv, ServeDirStripD(dv, route, uri))
   ELSE IF h = "directory"
   THEN LET s == DirHandlerStripD(dv, route, uri) IN
        IF ~Utf8Ok(s) THEN FindPrep("panic", NoArg, NoArg)      \* String::remove(0) on an empty string / inside a character
@@ -386,7 +418,7 @@ Targets == {<<h, route>> : h \in {"serve_dir", "directory"}, route \in RouteSet}
 
 \* 3c. The properties of a handler model on one request (rel), for all targets and a sequence of worlds ws
 \* what each target hands to try_find_path is the relative path, whatever the route prefix
-StripAt(dv, h, route, uri) == IF h = "serve_dir" THEN ServeDirStrip(route, uri) ELSE DirHandlerStripD(dv, route, uri)
+StripAt(dv, h, route, uri) == IF h = "serve_dir" THEN ServeDirStripD(dv, route, uri) ELSE DirHandlerStripD(dv, route, uri)
 PrefixRuleAt(rel) ==
   \A route \in RouteSet : \A h \in {"serve_dir", "directory"} : StripAt(Dev, h, route, Prefix(route) \o rel) = rel
 
@@ -544,6 +576,45 @@ W3 == World({
   Fn(<<N(".a.b")>>, 44), Dn(<<N("root")>>), Fn(<<N("root"), N("index.html")>>, 45) })
 
 Worlds == <<W1, W2, W3>>
+
+\* W4, the world of names (not enumerated against the catalogue; swept by MC_StaticFs!Sweep*):
+\*   b/<c>   one file per ASCII byte 1..127 except `.` and `/` (controls, DEL, space, % : \ * ? # ...)
+\*   u/...   one representative per Unicode class at the start, in the middle, at the end of a name: non-ASCII digits,
+\*           other numerics, non-ASCII white space, case mappings that change length, a combining mark, C1 controls,
+\*           private use, the first / last scalar of each UTF-8 length; together with b/ every byte that can occur in
+\*           UTF-8 occurs in some name
+\*   x/...   names that are only an extension, several dots with a known last extension, trailing dots
+\*   static/, dü/, s/   sub-directories named like the route prefixes
+\*   d/d/.../index.htm   a deep chain of directories that contain only index.htm
+\*   z/...   files whose sizes are boundary values (SizeOf: content id -> bytes; the harness writes them that long)
+NBSP == <<194, 160>>
+U(a) == a                                              \* (readability: a UTF-8 byte string written out)
+UniNames == <<
+  NBSP \o N("a.txt"), N("a") \o NBSP, N("a") \o <<227, 128, 128>> \o N("b.css"), <<194, 133>> \o N("n"), N("l") \o <<226, 128, 168>>,
+  <<225, 154, 128>>, <<217, 163>> \o N(".html"), <<239, 188, 145, 239, 188, 145>>, <<240, 157, 159, 153>> \o N(".js"),
+  <<194, 178, 194, 189, 226, 133, 167>>, <<195, 159>> \o N(".txt"), N("x.") \o <<195, 159>>, <<196, 176>> \o N(".css"),
+  <<239, 172, 129>> \o N("le.json"), N("e") \o <<204, 129>> \o N(".txt"), <<194, 128>> \o N("c1"), N("c1") \o <<194, 159>>,
+  <<127>> \o N("del") \o <<127>>, <<238, 128, 128>>, <<244, 143, 191, 191>> \o N(".png"), <<240, 144, 128, 128>>, <<237, 159, 191>>,
+  <<224, 160, 128>>, <<223, 191>>, <<194, 128>>, <<239, 191, 189>> \o N(".svg"), <<243, 176, 128, 128>>, <<241, 128, 128, 128>>,
+  <<225, 128, 128>> \o <<236, 191, 191>>, <<195, 128>> \o <<197, 184>> \o <<198, 146>> \o <<199, 128>> >>
+DotNames == << N(".html"), N(".css"), N("x.html.txt"), N("page.txt.html"), N("archive.min.js"), N("f.txt."), N("tar.gz"),
+               N("a.b.c.d.e.json"), N(".a.png"), N("noext."), N("html"), N("x.htmlx"), N("x.ht ml") >>
+LongName == [i \in 1..255 |-> 110]                     \* 255 bytes, the longest name Linux accepts
+DU == <<100, 195, 188>>                                \* "dü"
+SizeOf == << <<5000, 0>>, <<5001, 1>>, <<5002, 255>>, <<5003, 256>>, <<5004, 65535>>, <<5005, 65536>>, <<5006, 65537>>, <<5007, 3145729>> >>
+W4 == World(
+  {Dn(<<N("b")>>), Dn(<<N("u")>>), Dn(<<N("x")>>), Dn(<<N("z")>>), Dn(<<N("static")>>), Dn(<<N("static"), N("static")>>),
+   Dn(<<DU>>), Dn(<<N("s")>>), Dn(<<N("u"), NBSP \o N("d") \o NBSP>>)}
+  \cup {Fn(<<N("b"), <<c>>>>, 1000 + c) : c \in (1..127) \ {DOT, SLASH}}
+  \cup {Fn(<<N("u"), UniNames[i]>>, 2000 + i) : i \in 1..Len(UniNames)}
+  \cup {Fn(<<N("x"), DotNames[i]>>, 3000 + i) : i \in 1..Len(DotNames)}
+  \cup {Dn([i \in 1..k |-> N("d")]) : k \in 1..8}
+  \cup {Fn([i \in 1..8 |-> N("d")] \o <<N("index.htm")>>, 4000), Fn(<<N("u"), NBSP \o N("d") \o NBSP, N("index.htm")>>, 4001),
+        Fn(<<N("static"), N("index.html")>>, 4002), Fn(<<N("static"), N("static"), N("x.txt")>>, 4003), Fn(<<DU, N("x.txt")>>, 4004),
+        Fn(<<DU \o DU>>, 4005), Fn(<<N("s"), N("s")>>, 4006), Fn(<<N("static.txt")>>, 4007), Fn(<<LongName>>, 4008),
+        Fn(<<N("z"), N("empty.txt")>>, 5000), Fn(<<N("z"), N("one.bin")>>, 5001), Fn(<<N("z"), N("s255")>>, 5002),
+        Fn(<<N("z"), N("s256.css")>>, 5003), Fn(<<N("z"), N("s65535.js")>>, 5004), Fn(<<N("z"), N("s65536.png")>>, 5005),
+        Fn(<<N("z"), N("s65537.pdf")>>, 5006), Fn(<<N("z"), N("big.bin")>>, 5007)})
 
 \* segment spellings; the first 18 are the catalogue of the property's quantifier
 Catalogue == <<
